@@ -31,6 +31,7 @@ const (
 	Reply                     // a custom reply (Code, Text)
 	Drop                      // close the connection without replying
 	Stall                     // go silent, hold the connection open
+	Raw                       // write Text verbatim (not an SMTP reply), e.g. garbage
 )
 
 type Action struct {
@@ -133,6 +134,8 @@ type Session struct {
 	PostTLSAppData int    // application-data bytes decrypted after the handshake
 	PostFailBytes  []byte // raw bytes received after a failed/garbled handshake
 	HandshakeBytes []byte // raw bytes received during the handshake (TLS records)
+	RawBytes       []byte // implicit TLS: every raw byte received on the wire
+	Implicit       bool
 	EarlyBytes     []byte
 	ClientEOF      bool
 	Quit           bool
@@ -234,6 +237,76 @@ func defaultCaps(int, bool) []string {
 	return []string{"8BITMIME", "SMTPUTF8", "DSN", "ENHANCEDSTATUSCODES"}
 }
 
+// ServeImplicitTLS accepts TLS immediately on raw (implicit TLS / SMTPS) and then serves SMTP on top.
+// Every raw byte received is recorded in Session.RawBytes; handshake result in TLSOK/TLSErr.
+func ServeImplicitTLS(raw net.Conn, cfg *Config, id int) *Session {
+	s := &Session{ID: id, Cfg: cfg, Done: make(chan struct{}), stop: make(chan struct{}), state: "start", States: map[string]int{}, Trans: map[string]int{}}
+	if cfg.Caps == nil {
+		cfg.Caps = defaultCaps
+	}
+	if cfg.Hostname == "" {
+		cfg.Hostname = "ref.verif.example"
+	}
+	s.Implicit = true
+	rt := &rawTap{Conn: raw, s: s}
+	go func() {
+		defer close(s.Done)
+		defer func() { _ = raw.Close() }()
+		if cfg.TLSGarbage {
+			_, _ = raw.Write([]byte("220 this is not TLS\r\n"))
+			s.tap = &tapConn{Conn: rt, s: s}
+			s.mu.Lock()
+			s.TLSStarted = true
+			s.mu.Unlock()
+			s.drainAfterFailedTLS()
+			return
+		}
+		tc := tls.Server(rt, cfg.TLS)
+		_ = tc.SetDeadline(time.Now().Add(10 * time.Second))
+		err := tc.Handshake()
+		_ = tc.SetDeadline(time.Time{})
+		s.mu.Lock()
+		s.TLSStarted = true
+		s.mu.Unlock()
+		if err != nil {
+			s.mu.Lock()
+			s.TLSErr = err.Error()
+			s.mu.Unlock()
+			s.tap = &tapConn{Conn: rt, s: s}
+			s.drainAfterFailedTLS()
+			return
+		}
+		st := tc.ConnectionState()
+		s.mu.Lock()
+		s.TLSOK = true
+		s.TLSState = &st
+		s.mu.Unlock()
+		s.tap = &tapConn{Conn: tc, s: s}
+		s.conn = &countConn{Conn: tc, s: s}
+		s.br = bufio.NewReaderSize(s.conn, 4096)
+		s.run()
+	}()
+	return s
+}
+
+// rawTap records every raw byte below an implicit-TLS session.
+type rawTap struct {
+	net.Conn
+	s *Session
+}
+
+func (t *rawTap) Read(p []byte) (int, error) {
+	n, err := t.Conn.Read(p)
+	if n > 0 {
+		t.s.mu.Lock()
+		if len(t.s.RawBytes) < 1<<16 {
+			t.s.RawBytes = append(t.s.RawBytes, p[:n]...)
+		}
+		t.s.mu.Unlock()
+	}
+	return n, err
+}
+
 // Serve runs the server side on conn in a new goroutine.
 func Serve(conn net.Conn, cfg *Config, id int) *Session {
 	s := &Session{ID: id, Cfg: cfg, Done: make(chan struct{}), stop: make(chan struct{}), state: "start", States: map[string]int{}, Trans: map[string]int{}}
@@ -319,6 +392,11 @@ func (s *Session) act(rec *CmdRecord, a Action) (handled bool, err error) {
 		s.record(rec)
 		<-s.stop
 		return true, errStop
+	case Raw:
+		rec.ReplyCode, rec.Reply = 0, a.Text
+		s.record(rec)
+		_, err := io.WriteString(s.conn, a.Text)
+		return true, err
 	}
 	return false, nil
 }
@@ -874,8 +952,9 @@ func (a *authIO) Challenge(data []byte) ([]byte, bool, error) {
 }
 
 func (a *authIO) ChallengeRaw(text string) ([]byte, bool, error) {
-	rec := &CmdRecord{Index: a.s.step, Verb: a.rec.Verb, Line: a.rec.Line, TLS: a.s.tlsOn(), StateBefore: "auth"}
+	rec := &CmdRecord{Index: a.s.step, Verb: a.rec.Verb, Line: a.rec.Line, TLS: a.s.tlsOn(), StateBefore: "auth", Parsed: a.rec.Parsed}
 	if a.n > 0 {
+		rec.Parsed = nil
 		rec.Verb = "AUTH-CONT"
 		rec.Line = "(continuation)"
 	}
@@ -920,8 +999,9 @@ func (s *Session) doAuth(rec *CmdRecord, cmd rfc5321.Command) error {
 	}
 	aio := &authIO{s: s, rec: rec}
 	act := s.Cfg.Auth(aio, cmd.Arg, initial, has)
-	final := &CmdRecord{Index: s.step, Verb: rec.Verb, Line: rec.Line, TLS: s.tlsOn(), StateBefore: "auth"}
+	final := &CmdRecord{Index: s.step, Verb: rec.Verb, Line: rec.Line, TLS: s.tlsOn(), StateBefore: "auth", Parsed: rec.Parsed}
 	if aio.n > 0 {
+		final.Parsed = nil
 		final.Verb = "AUTH-END"
 		final.Line = "(final)"
 	}
